@@ -9,11 +9,12 @@
      no_intro w        w contains none of ESC, \x9b, \001
      is_ctl / neutralise   the five control characters ESC \b \x9b \001 \002 -> '?'
      esc1 / dat        html_escape per character / the character it delivers as data
-   [cfg] selects the code as it stands (cfg_as_coded) or with the repairs of
-   /verif/fixes/C18-*.patch; theorems that need a repair carry it as a
-   hypothesis and are paired with a `_refuted` witness for the code as it stands. *)
+   [cfg_now] is the code that is in /repo now (with the six 'fix:' commits
+   86103a9 baf43a1 afcdc3a 8fdddd4 74c3a15 7fe5e6f); the headline theorems are
+   about it.  [cfg_pinned] is the pinned snapshot: each `_pinned_refuted`
+   theorem is the witness that the same statement was false there. *)
 From Coq Require Import ZArith List Bool.
-From PTK Require Import Lib.Sx Lib.Py Gen.C18_Tables Model.C18_Fragments Model.C18_Ansi Model.C18_Html
+From PTK Require Import Lib.Sx Lib.Py Gen.C18_Tables Gen.Whitespace Model.C18_Fragments Model.C18_Ansi Model.C18_Html
   Proofs.C18_FragmentsFacts Proofs.C18_AnsiFacts Proofs.C18_HtmlFacts.
 Import ListNotations.
 Open Scope Z_scope.
@@ -76,95 +77,98 @@ Theorem C18_ansi_plain_partial : forall k s,
 Proof. exact ansi_plain. Qed.
 Print Assumptions C18_ansi_plain_partial.
 
-(* The parser accepts every string (after fixes/C18-ansi-csi-digits.patch) ... *)
-Theorem C18_ansi_total_repaired : forall k s,
-  cfg_ascii_digits k = true -> exists o, ansi_parse k s = Ok o.
-Proof. exact ansi_total_repaired. Qed.
-Print Assumptions C18_ansi_total_repaired.
+(* The parser accepts every string. *)
+Theorem C18_ansi_total : forall s, exists o, ansi_parse cfg_now s = Ok o.
+Proof. exact ansi_total_now. Qed.
+Print Assumptions C18_ansi_total.
 
-(* ... and does not as the code stands: ESC [ superscript-two m raises ValueError, *)
-Theorem C18_ansi_total_refuted : exists s, ansi_parse cfg_as_coded s = Err 1.
+(* Pinned snapshot: ESC [ superscript-two m raised ValueError, *)
+Theorem C18_ansi_total_pinned_refuted : exists s, ansi_parse cfg_pinned s = Err 1.
 Proof. exact ansi_total_refuted. Qed.
-Print Assumptions C18_ansi_total_refuted.
+Print Assumptions C18_ansi_total_pinned_refuted.
 
-(* so does a parameter with one digit more than int() converts. *)
-Theorem C18_ansi_total_digit_limit_refuted :
+(* so did a parameter with one digit more than int() converts. *)
+Theorem C18_ansi_total_digit_limit_pinned_refuted :
   (0 <? c18_int_max_str_digits) = true ->
-  ansi_parse cfg_as_coded
+  ansi_parse cfg_pinned
     (27 :: 91 :: repeat 49 (Z.to_nat (c18_int_max_str_digits + 1)) ++ [109]) = Err 1.
 Proof. exact ansi_total_digit_limit_refuted. Qed.
-Print Assumptions C18_ansi_total_digit_limit_refuted.
+Print Assumptions C18_ansi_total_digit_limit_pinned_refuted.
 
 (* A parser in its ground state fed introducer-free text emits it with the
    current style and returns to the very same state (mode, style string and
-   every SGR flag).  Holds for the code as it stands and repaired alike. *)
+   every SGR flag). *)
 Theorem C18_ansi_inert : forall k w st,
   p_mode st = Ground -> no_intro w = true ->
   run k st w = Ok (st, as_text (p_style st) w).
 Proof. exact run_inert. Qed.
 Print Assumptions C18_ansi_inert.
 
-(* ansi_escape (after fixes/C18-ansi-escape-c1.patch): same length, only
-   the five control characters change, none of them and no introducer is left. *)
-Theorem C18_ansi_escape_safe_repaired : forall k v,
-  cfg_esc_c1 k = true ->
-  ansi_escape k v = map neutralise v /\
-  length (ansi_escape k v) = length v /\
-  forallb (fun c => negb (is_ctl c)) (ansi_escape k v) = true /\
-  no_intro (ansi_escape k v) = true.
-Proof. exact ansi_escape_safe_repaired_full. Qed.
-Print Assumptions C18_ansi_escape_safe_repaired.
+(* ansi_escape: same length, only the five control characters change (into
+   '?'), none of them and no introducer is left. *)
+Theorem C18_ansi_escape_safe : forall v,
+  ansi_escape cfg_now v = map neutralise v /\
+  length (ansi_escape cfg_now v) = length v /\
+  forallb (fun c => negb (is_ctl c)) (ansi_escape cfg_now v) = true /\
+  no_intro (ansi_escape cfg_now v) = true.
+Proof. exact ansi_escape_safe_now. Qed.
+Print Assumptions C18_ansi_escape_safe.
 
-(* As the code stands the 8-bit CSI and the zero-width marker pass. *)
-Theorem C18_ansi_escape_safe_refuted : exists v, no_intro (ansi_escape cfg_as_coded v) = false.
+(* Pinned snapshot: the 8-bit CSI (and the zero-width marker) passed. *)
+Theorem C18_ansi_escape_safe_pinned_refuted : exists v, no_intro (ansi_escape cfg_pinned v) = false.
 Proof. exact ansi_escape_safe_refuted. Qed.
-Print Assumptions C18_ansi_escape_safe_refuted.
+Print Assumptions C18_ansi_escape_safe_pinned_refuted.
 
 (* Interpolation: if the template text before a field leaves the parser in
    its ground state, the text after the field is parsed from exactly that
    state whatever the value; the value contributes its own (neutralised)
    characters with the surrounding style and nothing else. *)
-Theorem C18_ansi_template_inert_repaired : forall k st0 pre v post st o1,
-  cfg_esc_c1 k = true ->
-  run k st0 pre = Ok (st, o1) -> p_mode st = Ground ->
-  run k st0 (pre ++ ansi_escape k v ++ post) =
-  match run k st post with
+Theorem C18_ansi_template_inert : forall st0 pre v post st o1,
+  run cfg_now st0 pre = Ok (st, o1) -> p_mode st = Ground ->
+  run cfg_now st0 (pre ++ ansi_escape cfg_now v ++ post) =
+  match run cfg_now st post with
   | Err e => Err e
-  | Ok (st2, o2) => Ok (st2, o1 ++ as_text (p_style st) (ansi_escape k v) ++ o2)
+  | Ok (st2, o2) => Ok (st2, o1 ++ as_text (p_style st) (ansi_escape cfg_now v) ++ o2)
   end.
-Proof. exact ansi_template_inert_repaired. Qed.
-Print Assumptions C18_ansi_template_inert_repaired.
+Proof. exact ansi_template_inert_now. Qed.
+Print Assumptions C18_ansi_template_inert.
 
-Theorem C18_ansi_template_inert_refuted :
+Theorem C18_ansi_template_inert_pinned_refuted :
   exists pre v post st o1,
-    run cfg_as_coded pst0 pre = Ok (st, o1) /\ p_mode st = Ground /\
-    run cfg_as_coded pst0 (pre ++ ansi_escape cfg_as_coded v ++ post) <>
-    match run cfg_as_coded st post with
+    run cfg_pinned pst0 pre = Ok (st, o1) /\ p_mode st = Ground /\
+    run cfg_pinned pst0 (pre ++ ansi_escape cfg_pinned v ++ post) <>
+    match run cfg_pinned st post with
     | Err e => Err e
-    | Ok (st2, o2) => Ok (st2, o1 ++ as_text (p_style st) (ansi_escape cfg_as_coded v) ++ o2)
+    | Ok (st2, o2) => Ok (st2, o1 ++ as_text (p_style st) (ansi_escape cfg_pinned v) ++ o2)
     end.
 Proof. exact ansi_template_inert_refuted. Qed.
-Print Assumptions C18_ansi_template_inert_refuted.
+Print Assumptions C18_ansi_template_inert_pinned_refuted.
 
-(* A zero-width region met in the ground state yields one zero-width
-   fragment and leaves the parser where it was (after
-   fixes/C18-ansi-zero-width-adjacent.patch) ... *)
-Theorem C18_ansi_zero_width_region_repaired : forall k st body,
-  cfg_zw_loop k = true -> p_mode st = Ground -> mem_Z STX body = false ->
-  run k st (SOH :: body ++ [STX]) = Ok (st, [mkfrag ZWE body []]).
-Proof. exact ansi_zero_width_region_repaired. Qed.
-Print Assumptions C18_ansi_zero_width_region_repaired.
+(* A zero-width region met in the ground state yields one zero-width fragment
+   and leaves the parser where it was; so do two adjacent ones. *)
+Theorem C18_ansi_zero_width_region : forall st body,
+  p_mode st = Ground -> mem_Z STX body = false ->
+  run cfg_now st (SOH :: body ++ [STX]) = Ok (st, [mkfrag ZWE body []]).
+Proof. exact ansi_zero_width_region_now. Qed.
+Print Assumptions C18_ansi_zero_width_region.
 
-(* ... as the code stands the second of two adjacent regions becomes visible text. *)
-Theorem C18_ansi_zero_width_adjacent_refuted :
-  exists s o, ansi_parse cfg_as_coded s = Ok o /\ fragment_list_to_text o = [1; 98; 2; 99].
+Theorem C18_ansi_zero_width_adjacent : forall st b1 b2,
+  p_mode st = Ground -> mem_Z STX b1 = false -> mem_Z STX b2 = false ->
+  run cfg_now st ((SOH :: b1 ++ [STX]) ++ (SOH :: b2 ++ [STX])) =
+  Ok (st, [mkfrag ZWE b1 []; mkfrag ZWE b2 []]).
+Proof. exact ansi_zero_width_adjacent_now. Qed.
+Print Assumptions C18_ansi_zero_width_adjacent.
+
+(* Pinned snapshot: the second of two adjacent regions became visible text. *)
+Theorem C18_ansi_zero_width_adjacent_pinned_refuted :
+  exists s o, ansi_parse cfg_pinned s = Ok o /\ fragment_list_to_text o = [1; 98; 2; 99].
 Proof. exact ansi_zero_width_adjacent_refuted. Qed.
-Print Assumptions C18_ansi_zero_width_adjacent_refuted.
+Print Assumptions C18_ansi_zero_width_adjacent_pinned_refuted.
 
 (* ---- HTML ------------------------------------------------------------- *)
 
-(* html_escape works character by character and leaves no LT and no double
-   quote in its output. *)
+(* html_escape works character by character and leaves no LT, no double
+   quote and no apostrophe in its output. *)
 Theorem C18_html_escape_flat : forall k v, html_escape k v = flat_map (esc1 k) v.
 Proof. exact html_escape_flat. Qed.
 Print Assumptions C18_html_escape_flat.
@@ -174,51 +178,60 @@ Theorem C18_html_escape_no_markup : forall k v,
 Proof. exact html_escape_no_markup. Qed.
 Print Assumptions C18_html_escape_no_markup.
 
-Theorem C18_html_escape_no_apos_repaired : forall k v,
-  cfg_html_apos k = true -> mem_Z SQ (html_escape k v) = false.
-Proof. exact html_escape_no_apos_repaired. Qed.
-Print Assumptions C18_html_escape_no_apos_repaired.
+Theorem C18_html_escape_no_apos : forall v, mem_Z SQ (html_escape cfg_now v) = false.
+Proof. exact html_escape_no_apos_now. Qed.
+Print Assumptions C18_html_escape_no_apos.
 
 (* Round trip and inertness at a text position: the XML machine, inside an
    element and between tokens, fed the escaped value, decodes it back to the
-   value and consumes all of it as data of the text node being built; stacks,
-   output so far and error flags are untouched and no markup state is entered.
-   Side condition: the value's characters are ones XML can carry (with
-   fixes/C18-html-escape-xmlchars.patch: every character) and not \r. *)
-Theorem C18_html_text_inert : forall k v h acc rb,
+   value (characters XML cannot carry as '?') and consumes all of it as data
+   of the text node being built; stacks, output so far and error flags are
+   untouched and no markup state is entered.  Only side condition: no \r in
+   the value (XML line-end normalisation turns it into \n). *)
+Theorem C18_html_text_inert : forall v h acc rb,
   h_mode h = HText acc false rb -> h_stack h <> [] ->
-  Forall (ok_text_char k) v ->
-  exists rb', hrun k h (html_escape k v) = Ok (set_hmode h (HText (acc ++ map (dat k) v) false rb')).
-Proof. exact html_text_inert. Qed.
+  ~ In 13 v ->
+  exists rb', hrun cfg_now h (html_escape cfg_now v)
+              = Ok (set_hmode h (HText (acc ++ map (dat cfg_now) v) false rb')).
+Proof. exact html_text_inert_now. Qed.
 Print Assumptions C18_html_text_inert.
 
-(* Inertness at an attribute position: inside a double-quoted value (or a
-   single-quoted one once the apostrophe is escaped) the escaped value extends
-   that attribute's value and nothing else. *)
-Theorem C18_html_attr_inert : forall k nm ats an q v h acc,
+(* Inertness at an attribute position, either quote style: the escaped value
+   extends that attribute's value and nothing else (values without \t \n \r,
+   which attribute-value normalisation turns into spaces). *)
+Theorem C18_html_attr_inert : forall nm ats an q v h acc,
   h_mode h = HAttrVal nm ats an q acc false ->
-  (q = DQ \/ (q = SQ /\ cfg_html_apos k = true)) ->
-  Forall (ok_attr_char k) v ->
-  hrun k h (html_escape k v) = Ok (set_hmode h (HAttrVal nm ats an q (acc ++ map (dat k) v) false)).
-Proof. exact html_attr_inert. Qed.
+  (q = DQ \/ q = SQ) ->
+  (forall c, In c v -> c <> 13 /\ c <> 10 /\ c <> 9) ->
+  hrun cfg_now h (html_escape cfg_now v)
+  = Ok (set_hmode h (HAttrVal nm ats an q (acc ++ map (dat cfg_now) v) false)).
+Proof. exact html_attr_inert_now. Qed.
 Print Assumptions C18_html_attr_inert.
 
-(* As the code stands: a single-quoted attribute is closed by the value, which adds bg. *)
-Theorem C18_html_attr_inert_single_quote_refuted :
-  html_template cfg_as_coded [S_style_fg_sq; S_x_end_sq] [S_red_bg_blue]
+(* The fg/bg guard: a value it lets through has no str.isspace character,
+   so it cannot add a word to the style string. *)
+Theorem C18_html_space_guard : forall v,
+  has_space cfg_now v = false ->
+  forall c, In c v -> mem_Z c Gen.Whitespace.py_isspace_table = false.
+Proof. exact html_space_guard_now. Qed.
+Print Assumptions C18_html_space_guard.
+
+(* Pinned snapshot: a single-quoted attribute was closed by the value, which added bg. *)
+Theorem C18_html_attr_inert_single_quote_pinned_refuted :
+  html_template cfg_pinned [S_style_fg_sq; S_x_end_sq] [S_red_bg_blue]
   = Ok [mkfrag S_fg_red_bg_blue [120] []].
 Proof. exact html_attr_inert_single_quote_refuted. Qed.
-Print Assumptions C18_html_attr_inert_single_quote_refuted.
+Print Assumptions C18_html_attr_inert_single_quote_pinned_refuted.
 
-(* As the code stands: a value character XML cannot carry makes the call raise. *)
-Theorem C18_html_text_value_raises_refuted :
-  html_template cfg_as_coded [[60; 105; 62]; [60; 47; 105; 62]] [[27; 91; 48; 109]] = Err 2.
+(* Pinned snapshot: a value character XML cannot carry made the call raise. *)
+Theorem C18_html_text_value_raises_pinned_refuted :
+  html_template cfg_pinned [[60; 105; 62]; [60; 47; 105; 62]] [[27; 91; 48; 109]] = Err 2.
 Proof. exact html_text_value_raises_refuted. Qed.
-Print Assumptions C18_html_text_value_raises_refuted.
+Print Assumptions C18_html_text_value_raises_pinned_refuted.
 
-(* As the code stands: the fg/bg guard lets a no-break space through. *)
-Theorem C18_html_attr_space_guard_refuted :
-  html_template cfg_as_coded [S_style_fg_dq; S_x_end_dq] [S_red_nbsp_bold]
+(* Pinned snapshot: the fg/bg guard let a no-break space through. *)
+Theorem C18_html_attr_space_guard_pinned_refuted :
+  html_template cfg_pinned [S_style_fg_dq; S_x_end_dq] [S_red_nbsp_bold]
   = Ok [mkfrag ([102; 103; 58] ++ S_red_nbsp_bold) [120] []].
 Proof. exact html_attr_space_guard_refuted. Qed.
-Print Assumptions C18_html_attr_space_guard_refuted.
+Print Assumptions C18_html_attr_space_guard_pinned_refuted.
